@@ -43,6 +43,11 @@ NAMED = {
     'J/kg/K': (F(1), (2, -2, 0, -1)),
     'W/m^2': (F(1), (0, -3, 1, 0)),
     'km/h': (F(1000, 3600), (1, -1, 0, 0)),
+    # dimensionless units that still carry a factor (mixing ratios, fractions): the round trip must undo the factor too
+    'g/kg': (F(1, 1000), (0, 0, 0, 0)),
+    'percent': (F(1, 100), (0, 0, 0, 0)),
+    'ppm': (F(1, 10 ** 6), (0, 0, 0, 0)),
+    'year/day': (F(36525, 100), (0, 0, 0, 0)),
 }
 # a second spelling of the same dimension for the named units (name -> (SI factor, spelled in pint))
 NAMED_ALT = {
@@ -51,6 +56,10 @@ NAMED_ALT = {
     'J/kg/K': (F(1000), 'kJ/kg/K'),
     'W/m^2': (F(1000), 'kW/m^2'),
     'km/h': (F(1), 'm/s'),
+    'g/kg': (F(1), 'dimensionless'),
+    'percent': (F(1, 1000), 'g/kg'),
+    'ppm': (F(1, 100), 'percent'),
+    'year/day': (F(1), 'dimensionless'),
 }
 
 
